@@ -24,7 +24,7 @@ structure FSt where
 /-- the fault plan lets one of the `retries + 1` attempts through (nothing is injected at the leader itself; plans with a
     leadership loss in mid-call are left out) -/
 def planPasses (retries a lead : Nat) (plan : List PT) : Bool :=
-  !plan.contains .x && (a == lead || decide (plan.length ≤ retries))
+  !plan.contains .x && !plan.contains .p && (a == lead || decide (plan.length ≤ retries))
 
 def fAdvance (s : FSt) : FOp → FSt
   | .add _ j _ _ _ _ _ has => if has == .all then { s with members := insertPeer j s.members } else s
@@ -117,10 +117,12 @@ def cFinal (s : CSt) (phases : List (List COp)) : CSt := phases.foldl cAdvance s
 def sureMap (unsure : List Nat) (m : PinMap) : PinMap := m.filter (fun p => !unsure.contains p.cid)
 
 /-- clauses of a call, given what was certain before its phase: no-ops are acknowledged at a member whose own
-    membership is not being changed in the phase -/
+    membership is not being changed in the phase, in phases that remove no running peer (removing the leader while
+    other calls are in flight is a fault for them: they may fail) -/
 def cCheckPhase (init : List Nat) (s : CSt) (ph : List COp) : List (String × Bool) :=
+  let calm : Bool := !ph.any (fun o => match o with | .rm _ j _ => init.contains j | _ => false)
   let steady (a : Nat) : Bool :=
-    init.contains a && s.members.contains a && !s.unsureP.contains a && !ph.any (fun o => o.subject == some a)
+    calm && init.contains a && s.members.contains a && !s.unsureP.contains a && !ph.any (fun o => o.subject == some a)
   ph.flatMap (fun op =>
     match op with
     | .add a j res =>
